@@ -169,12 +169,16 @@ prop("C04", ["prims.go", "c04.go"],
 # ------------------------------------------------------------------------------------------------ C09
 prop("C09", ["prims.go", "c09a.go"],
      [run("mux", "harnessC09a", ["accept-matched", "accept-timed-out", "probe-done"],
-          quick={"bound": "MuxBroker: <= 2 inbound dials with IDs x1, x2 NOT assumed distinct at symbolic instants t1 <= t2, <= 1 local Accept(a) at tA, then a fresh matched pair after every timer expired; canonical schedule, symbolic clock (ties explored)"})],
-     [YAMUX, "encoding/binary.Read/Write of a uint32 moves one message on a stream"],
-     ["yamux.Session/Stream", "encoding/binary"],
-     "the gRPC broker half; schedules other than canonical; histories longer than the bound; Close ending the goroutines",
-     text="Bounded symbolic model checking of the real MuxBroker.Run/Accept/getStream/timeoutWait under cooperative goroutines and a symbolic clock: IDs, arrival instants and the accept instant are solver-chosen (duplicate IDs and the expiry-instant tie are satisfying assignments); every unmatched call returns within 5 s, and after the history a fresh pair still succeeds (no goroutine blocked for ever).",
-     note="Bound: history of <= 2 inbound dials + <= 1 accept; canonical schedule. " + ENGINE)
+          quick={"bound": "MuxBroker: <= 2 inbound dials with IDs x1, x2 NOT assumed distinct at symbolic instants t1 <= t2, <= 1 local Accept(a) at tA, then a fresh matched pair after every timer expired; canonical schedule, symbolic clock (ties explored)"}),
+      run("grpc", "harnessC09grpc", ["history-done", "lonely-accept", "fresh-pair", "closed"], files=["prims.go", "c07.go"],
+          quick={"bound": "GRPCBroker without multiplexing, real stream pumps: <= 2 Dial calls nobody accepts (IDs not assumed distinct) and <= 1 Accept nobody dials, at symbolic instants; then a fresh routed pair; then Close of both brokers"}),
+      run("grpc-mux", "harnessC09mux", ["history-done", "fresh-pair", "closed"], files=["prims.go", "c08.go"],
+          quick={"bound": "GRPCBroker with multiplexing, both real muxers: <= 2 dials (knocks) nobody accepts, IDs not assumed distinct, symbolic instants; then a fresh pair; then Close of both brokers"})],
+     [YAMUX, "encoding/binary.Read/Write of a uint32 moves one message on a stream", GRPCSEAM, GHOSTFS],
+     ["yamux.Session/Stream", "encoding/binary", "grpc.Dial", "net.Listen", "broker stream"],
+     "schedules other than canonical; histories longer than the bound; a peer closing mid-negotiation",
+     text="Bounded symbolic model checking of the real MuxBroker (Run/Accept/getStream/timeoutWait) and of the real GRPCBroker with and without multiplexing (Run/Dial/knock/muxDial/Accept/timeoutWait, both muxers, the real stream pumps) under cooperative goroutines and a symbolic clock: IDs, arrival instants and the accept instant are solver-chosen (duplicate IDs and the expiry-instant tie are satisfying assignments); every unmatched call returns within the pending window, after the history a fresh pair still succeeds (no goroutine blocked for ever), and closing the brokers ends their goroutines.",
+     note="Bound: history of <= 2 unmatched dials + <= 1 unmatched accept per broker kind; canonical schedule. " + ENGINE)
 
 # ------------------------------------------------------------------------------------------------ C06 / C07 / C08 / C11 / C20
 NETRPC = "net/rpc model: Call(\"Svc.Method\") runs the real registered receiver method in a goroutine of the peer; fails when the connection is closed"
